@@ -489,10 +489,16 @@ fn arb_e_case() -> BoxedStrategy<Case> {
                 steps.truncate(1);
                 steps.push(st(K::Mul, 0, 20000, [(tape_seed >> 8) as u16 % 2, 3, 0, 0]));
                 steps.push(st(K::Mul, 30000, 50000, [(tape_seed >> 12) as u16 % 2, 3, 0, 0]));
-                steps.push(match (tape_seed >> 4) % 4 {
+                steps.push(match (tape_seed >> 4) % 8 {
                     0 | 1 => st(K::MkVector, 0, 0, [2, 1, 0, 0]),
                     2 => st(K::MkTuple, 0, 9000, [2, 0, 0, 0]),
-                    _ => st(K::Stack, 0, 9000, [1, 0, 0, 0]),
+                    3 => st(K::Stack, 0, 9000, [1, 0, 0, 0]),
+                    // a product together with a NON-product (an input / older node): the resharing
+                    // planner must still reshare the container
+                    4 => st(K::MkTuple, 0, 65535, [2, 0, 0, 0]),
+                    5 => st(K::MkTuple, 65535, 0, [2, 0, 0, 0]),
+                    6 => st(K::Concat, 0, 65535, [0, 1, 0, 0]),
+                    _ => st(K::Stack, 0, 65535, [1, 0, 0, 0]),
                 });
             }
             head.extend(steps);
